@@ -12,7 +12,7 @@ Local Arguments cnt : simpl never.
 
 (* elements that are queued: in the heap, or held by a worker whose wrapper has not decided yet *)
 Definition wq (w : wst) : list elem :=
-  match w with WPopped e | WParked e | WPopped2 e | WParked2 e | WDeliv e => [e] | _ => [] end.
+  match w with WPopped e | WParked e | WPopped2 e | WParked2 e | WChosen e | WDeliv e => [e] | _ => [] end.
 Definition wqs (ws : list wst) : list elem := flat_map wq ws.
 Definition waiting (s : st) : list elem := heap s ++ wqs (workers s).
 
@@ -422,6 +422,12 @@ Proof.
   - eapply tinv_worker with (old := old) (new := WDeliv e) (lost := []); wside I Ho.
 Qed.
 
+Lemma chosen_t g s w e old :
+  TInv g s -> nth_error (workers s) w = Some old -> wq old = [e] -> TInv g (upd_w s w (WChosen e)).
+Proof.
+  intros I H Ho. eapply tinv_worker with (old := old) (new := WChosen e) (lost := []); wside I Ho.
+Qed.
+
 Lemma ctx_t g s w e old :
   TInv g s -> nth_error (workers s) w = Some old -> wq old = [e] ->
   TInv g (upd_w (fst (ctx_branch s e)) w (snd (ctx_branch s e))).
@@ -430,7 +436,7 @@ Proof.
   - eapply tinv_worker with (old := old) (new := WExit) (lost := [e]); wside I Ho.
     intros G. rewrite (t_fc g s I G) in Fc. discriminate.
   - destruct (fignore s).
-    + apply deliver_t with (old := old); auto.
+    + simpl. apply chosen_t with (old := old); auto.
     + simpl. eapply tinv_worker with (old := old) (new := WPopped2 e) (lost := []); wside I Ho.
 Qed.
 
@@ -443,7 +449,7 @@ Proof.
   - apply ctx_t with (old := old); auto.
   - eapply tinv_worker with (old := old) (new := WIdle) (lost := [e]); wside I Ho.
     intros G x [<-|[]]. left. auto.
-  - apply deliver_t with (old := old); auto.
+  - apply chosen_t with (old := old); auto.
 Qed.
 
 Lemma ready_outer_can s e : In BCan (ready_outer s e) -> memb (eid e) (closed s) = true.
@@ -478,7 +484,7 @@ Proof.
       apply take_t with (old := WPopped e); auto.
       intros Eb. apply ready_outer_can. rewrite <- Eb. apply Hin. rewrite R; discriminate.
   - (* WParked *)
-    destruct (is_due s e); auto. apply deliver_t with (old := WParked e); auto.
+    destruct (is_due s e); auto. apply chosen_t with (old := WParked e); auto.
   - (* WPopped2 *)
     destruct (ready_inner s e) as [|b r] eqn:R.
     + simpl. eapply tinv_worker with (old := WPopped2 e) (new := WParked2 e) (lost := []); wside0 I.
@@ -486,7 +492,9 @@ Proof.
       apply take_t with (old := WPopped2 e); auto.
       intros Eb. apply ready_inner_can. rewrite <- Eb. apply Hin. rewrite R; discriminate.
   - (* WParked2 *)
-    destruct (is_due s e); auto. apply deliver_t with (old := WParked2 e); auto.
+    destruct (is_due s e); auto. apply chosen_t with (old := WParked2 e); auto.
+  - (* WChosen *)
+    destruct (is_due s e || (shut s && fignore s)); auto. apply deliver_t with (old := WChosen e); auto.
   - (* WDeliv *)
     assert (He : In e (waiting s)) by (eapply held_waiting; eauto; simpl; auto).
     pose proof (t_wait g s I e He) as Ke.
@@ -1053,7 +1061,7 @@ Qed.
 Open Scope N_scope.
 Definition te_demo : list label :=
   [LAdd 5 (Some 1%nat); LAdd 7 (Some 2%nat); LWorker 0 0; LAdd 9 (Some 1%nat); LTCancel 2; LTCancel 2;
-   LTick 10; LWorker 0 0; LWorker 0 0; LWorker 0 0; LWorker 0 0].
+   LTick 10; LWorker 0 0; LWorker 0 0; LWorker 0 0; LWorker 0 0; LWorker 0 0].
 Definition te_demo_log : list ev :=
   [EStart 2; EDeliver 2 10; ESkip 0; ETCancel 2 false; ETCancel 2 true; ECancel 1 true 0;
    EAdd 2 9 (Some 1%nat) 0; ECancel 0 false 0; EAdd 1 7 (Some 2%nat) 0; EAdd 0 5 (Some 1%nat) 0].
